@@ -146,6 +146,9 @@ pub struct Ghost {
     /// activity bounds of the menus are relative to what the scripted seed had already used
     pub seed_batches: u64,
     pub seed_seq: u64,
+    /// violations observed by the monitors while the scripted prefix of a seed was executed
+    /// (property, key, detail): every scripted step is judged like an explored transition
+    pub seed_viol: Vec<(String, String, String)>,
 }
 
 #[derive(Clone, Debug, Hash, PartialEq, Eq)]
